@@ -281,6 +281,13 @@ func (e *protoExec) opInner(op string) string {
 			e.c.Cut(i)
 		}
 		return mark("ok")
+	case "p.failappend":
+		// the next entry this node takes as a follower fails in its WAL (an I/O error); the leader's cursor
+		// reconnects and delivers it again
+		if i, ok := node(f[1]); ok {
+			e.c.FailNextAppend(i)
+		}
+		return mark("ok")
 	case "p.heal":
 		if i, ok := node(f[1]); ok {
 			e.c.Heal(i)
@@ -947,6 +954,18 @@ func genProtoDirected(rng *rand.Rand, which string, i int) []string {
 		return []string{"p.init n=3", "p.elect 0 1", fmt.Sprintf("p.write 0 %d", 10+i), "p.settle", "p.cut 0", fmt.Sprintf("p.write 0 %d", 100+i), fmt.Sprintf("p.write 0 %d", 200+i),
 			"p.elect 1 2", fmt.Sprintf("p.write 1 %d", 300+i), "p.settle", "p.state", "p.heal 0", "p.settle", "p.state", fmt.Sprintf("p.write 1 %d", 400+i), "p.settle", "p.state",
 			"p.elect 2 3", "p.settle", "p.state", "p.read 2"}
+	}
+	if which == "C03" && i%5 == 3 {
+		// an I/O error in a follower's WAL while it takes an entry: the stream breaks, the leader's cursor
+		// reconnects and delivers again from what the follower had acknowledged: what the follower acknowledges
+		// afterwards it holds
+		fo := 1 + i%2
+		out := []string{"p.init n=3", "p.elect 0 1", fmt.Sprintf("p.write 0 %d", 10+i), "p.settle", fmt.Sprintf("p.failappend %d", fo)}
+		for j := 0; j < 1+rng.Intn(3); j++ {
+			out = append(out, fmt.Sprintf("p.write 0 %d", 600+10*i+j))
+		}
+		out = append(out, "p.settle", "p.state", fmt.Sprintf("p.elect %d 2", fo), "p.settle", "p.state", fmt.Sprintf("p.read %d", fo))
+		return out
 	}
 	if which == "C03" && i%5 == 1 {
 		// a young shard (nothing committed, so no snapshot is sent): entries are pushed towards a follower
